@@ -132,10 +132,39 @@ class C04(SweepProp):
             probes.append({'tick': t, 'kind': 'auto', 'asm': 0, 'cell': 0,
                            'bypass': 0})
         case['probes'] = probes
+        gs = S('stretch')
+        case['stretch'] = {'u': float(gs.random()), 'delta': float(
+            rng.choice(gs, [1e-5, 1e-4, 5e-4, 9e-4, 1e-3, 2e-3]))} \
+            if rng.chance(gs, 0.5) else None
 
     def monitors(self, case, spec):
         return [oracles.PositivityC04(spec, case.get('probes', []),
                                       case.get('zero_power', False))]
+
+    def _with_stretch_plane(self, case):
+        # a requested plane a hair beyond the end of a regular step: the
+        # mesh must insert a sliver step, never stretch the regular one
+        # beyond the limit (the position depends on the step the tree under
+        # test selects, so it is resolved here from a plain construction)
+        st = case.get('stretch')
+        if st:
+            sim.quiet_logging()
+            r = None
+            with sim.scratch_dir() as d:
+                try:
+                    _, r = sim.build_reactor(case['spec'], d)
+                except (sim.Rejected, sim.Crashed, sim.BudgetExceeded):
+                    r = None
+            if r is not None and len(r.z) > 4:
+                k = 1 + int(st['u'] * (len(r.z) - 3))
+                z_new = float(r.z[k]) + float(r.req_dz) * (1.0 + st['delta'])
+                if z_new < float(r.core_length) - float(r.req_dz):
+                    case = copy.deepcopy(case)
+                    sp = case['spec']
+                    sp['axial_plane'] = sorted(set(
+                        list(sp.get('axial_plane', [])) + [z_new]))
+                    case['stretch_plane'] = z_new
+        return case
 
     def after(self, case, e, res, d):
         mon = e.S.monitors[0]
@@ -152,9 +181,13 @@ class C04(SweepProp):
     def run_case(self, case):
         # re-aim probe ticks into the sweep: ticks are planned modulo the
         # number of ticks, which is only known after construction
-        case = copy.deepcopy(case)
+        case = copy.deepcopy(self._with_stretch_plane(case))
         self._reaim = True
-        return SweepProp.run_case(self, case)
+        res = SweepProp.run_case(self, case)
+        if case.get('stretch_plane') is not None and \
+                isinstance(res.get('probes'), dict):
+            res['probes']['c04.plane_beyond_step_end'] = 1
+        return res
 
     def shrink_candidates(self, case):
         if len(case.get('probes', [])) > 1:
